@@ -81,3 +81,36 @@ CLAIMED["C15"]["text"] += "; no helper returns its input collection unconverted"
 CLAIMED["C19"]["technique"] += ", enumeration completeness of the database table"
 CLAIMED["C20"]["technique"] += ", loop-exit rule for termination arms, must-pass release rule in RequestTermination"
 CLAIMED["C20"]["text"] = L("termination reaches the connections, no process exit on environment errors, no per-process shared registries, live retry loop (currently known findings; any new instance is reported); a goroutine's termination arm never flows back into its loop; RequestTermination releases listener and cancel function on every path")
+
+# --- additions after the third batch of seeded changes and the robustness rounds (DESIGN.md §5.1b, §5.1c)
+CLAIMED["C01"]["technique"] += ", linear-form bound proof for every index/slice of the wire parser (R-C13-parser-bounds), parse-after-read rule, unconditional-sanitiser rule on the line emitter, data-flow rule on rendered length prefixes"
+CLAIMED["C01"]["text"] += "; every access of the wire parser into its buffer is within bounds by a dominating comparison with the same linear form; the CR/LF sanitiser is unconditional"
+CLAIMED["C02"]["technique"] += ", status value-set data flow (no change after a failed status), sign-domain enumeration of overflow tests (R-overflow-signs), fixed-notation rule for float text (R-float-text)"
+CLAIMED["C02"]["text"] += "; an overflow test written with sign tests separates exactly the overflowing sign combinations; floats become text in fixed notation"
+CLAIMED["C03"]["technique"] += ", helpers executed inside their callers and loops unrolled in the shape interpretation"
+CLAIMED["C04"]["technique"] += ", sign-domain enumeration of overflow tests, fixed-notation rule for float text, storage-writer closure of the dictionary (R-dict-readers-pure)"
+CLAIMED["C04"]["text"] += "; only insert/remove primitives write the dictionary's storage; HINCRBY's overflow test and HINCRBYFLOAT's text as for the string family"
+CLAIMED["C05"]["technique"] += ", storage-writer closure of the dictionary (R-dict-readers-pure)"
+CLAIMED["C06"]["technique"] += ", producer rule for the key-type flag, same-key ordering rule (R-same-key-order), storage-writer closure of the dictionary"
+CLAIMED["C06"]["text"] += "; the key type stored next to a payload is a constant, a copied flag or the loader's — never a value taken from a request; RENAME k k never removes after storing"
+CLAIMED["C07"]["technique"] = T + ": who-may-call / filter rule over keyspace readers incl. removal results (A6), deadline-with-payload rule for replacements (R-replace-clears-ttl), path-restricted deadline provenance for changes in place (R-inplace-keeps-ttl)"
+CLAIMED["C07"]["text"] = L("every read of the keyspace goes through the expiry filter, an expiry-testing iteration, or the snapshot writer; a replaced payload comes with a store of the deadline; a value computed from the key's previous value keeps the previous deadline")
+CLAIMED["C08"]["technique"] += ", scoped-acquirer summaries (functions that return their release function)"
+CLAIMED["C09"]["technique"] += ", no-release-in-replay-loop rule"
+CLAIMED["C10"]["technique"] += ", counter-provenance rule for version ids (R-C10-fresh-id), watch-entry database provenance (R-C10-watch-db)"
+CLAIMED["C10"]["text"] += "; a version id is the object counter read after its increment for this assignment; the database consulted for a watch entry comes from the entry"
+CLAIMED["C11"]["technique"] += ", unlink-before-send dominance rule (R-C11-unlink-all)"
+CLAIMED["C11"]["text"] += "; a wake signal is sent only after the waiter was unlinked from all its queues"
+CLAIMED["C12"]["technique"] += ", mailbox-post guard rule, compare-and-swap discipline of the capture state (R-C12-state-cas), deadline-after-dispatch rule"
+CLAIMED["C12"]["text"] += "; unblock requests are posted only in the captured state; the capture state changes only by CompareAndSwap between named states or by its transient owner; a write deadline is taken after the command ran"
+CLAIMED["C13"]["technique"] += ", edge-sensitive bound analysis of client-controlled integers incl. binary payloads and length-1 clamps (A8), length-before-index rule, validate-every-element loop rule, linear-form bound proof of the wire parser, hashability-by-construction of parser map keys (R-C13-hashkey), producer rule for the key-type flag"
+CLAIMED["C13"]["text"] += "; every size/index/shift derived from a client integer is bounded on the side that matters; every key the parser puts into an interface-keyed map is hashable by construction; no key-type flag comes from a request"
+CLAIMED["C14"]["technique"] += ", watch-entry database provenance"
+CLAIMED["C15"]["technique"] += " decided by an integer value-set analysis, cannot-fail-after-switch rule, fixed-notation rule for doubles"
+CLAIMED["C15"]["text"] += "; HELLO cannot fail after it stored the version; doubles become text in fixed notation"
+CLAIMED["C16"]["technique"] += ", common-lock inference for package-level variables outside the table (A1-unlisted-global)"
+CLAIMED["C16"]["text"] += "; package-level variables outside the table that connection code writes have one lock class in common at every access"
+CLAIMED["C19"]["technique"] += ", start-up scan rules (error-before-entry in the directory walk, no dereference of a single-result table read), final-name-never-removed and dirty-cleared-after-success clauses"
+CLAIMED["C19"]["text"] += "; the saver ranges over the whole table, writer and loader agree on the record stream, the snapshot is written to a temporary file, closed, then renamed; the start-up scan survives a missing directory and stray files"
+CLAIMED["C20"]["technique"] += ", WaitGroup accounting rule for goroutines, callback-outside-lock rule"
+CLAIMED["C20"]["text"] += "; a goroutine counted by the WaitGroup never waits on it and signals Done first; user callbacks are not invoked under an API mutex"
